@@ -84,7 +84,7 @@ type H struct {
 	Gen uint32 `json:"gen"`
 }
 
-func (h H) entity() ecs.Entity { return ecs.Entity(uint64(h.Gen)<<32 | uint64(h.ID)) }
+func (h H) entity() ecs.Entity  { return ecs.Entity(uint64(h.Gen)<<32 | uint64(h.ID)) }
 func fromEntity(e ecs.Entity) H { return H{ID: uint32(e), Gen: uint32(uint64(e) >> 32)} }
 func (h H) String() string      { return fmt.Sprintf("(%d,g%d)", h.ID, h.Gen) }
 
@@ -131,12 +131,12 @@ type Res struct {
 }
 
 type Case struct {
-	Script    []SOp `json:"script"`
-	Ops       []COp `json:"ops"`
-	Impl      []Res `json:"impl"`
-	Malformed bool  `json:"malformed,omitempty"`
-	NoModel   bool  `json:"nomodel,omitempty"` // contains an operation on which the Go code panics by design (not evaluated in Coq)
-	Store     *SCase `json:"store,omitempty"`  // direct storage sub-stream (monitor only)
+	Script    []SOp  `json:"script"`
+	Ops       []COp  `json:"ops"`
+	Impl      []Res  `json:"impl"`
+	Malformed bool   `json:"malformed,omitempty"`
+	NoModel   bool   `json:"nomodel,omitempty"` // contains an operation on which the Go code panics by design (not evaluated in Coq)
+	Store     *SCase `json:"store,omitempty"`   // direct storage sub-stream (monitor only)
 }
 
 const maxOps = 40
@@ -164,6 +164,30 @@ type runner struct {
 	archs   map[string]bool
 	shapes  []string
 	stopped bool // a panic after a malformed operation: nothing further is comparable
+	// slices that crossed the API: what Spawns handed to the caller (kept alive and compared with a copy after every later
+	// operation — the caller's slice must not be rewritten by the world; every second one is overwritten by the caller
+	// instead — the world must not be affected) and what the caller handed to Annihilates
+	kept    []keptSlice
+	nSpawns int
+}
+
+type keptSlice struct {
+	what string
+	live []ecs.Entity
+	copy []ecs.Entity
+}
+
+func (r *runner) checkKept() {
+	for i := range r.kept {
+		k := &r.kept[i]
+		for j := range k.live {
+			if k.live[j] != k.copy[j] {
+				r.flag("Spawns", "callers-slice-rewritten", fmt.Sprintf("%s: slot %d was %v, is %v (the world and the caller share a backing array)", k.what, j, k.copy[j], k.live[j]), nil)
+				copy(k.copy, k.live)
+				break
+			}
+		}
+	}
 }
 
 func (r *runner) flag(op string, class, detail string, sig map[string]string) {
@@ -299,6 +323,7 @@ func (r *runner) emit(o COp, res Res) {
 	}
 	r.c.Ops = append(r.c.Ops, o)
 	r.c.Impl = append(r.c.Impl, res)
+	r.checkKept()
 	if res.K == "panic" {
 		r.flag(opName(o.K), "panic", fmt.Sprintf("%s panicked: %s", describe(o), res.Err), nil)
 	}
@@ -574,6 +599,15 @@ func (r *runner) exec(s SOp) {
 			for i, e := range es {
 				hs[i] = fromEntity(e)
 			}
+			r.nSpawns++
+			if r.nSpawns%2 == 1 {
+				r.kept = append(r.kept, keptSlice{fmt.Sprintf("the slice returned by Spawns at concrete op #%d", len(r.c.Ops)), es, append([]ecs.Entity{}, es...)})
+			} else {
+				for i := range es { // the caller reuses its slice
+					var zero ecs.Entity
+					es[i] = zero
+				}
+			}
 			return Res{K: "handles", Hs: hs}
 		})
 		r.emit(COp{K: "spawns", N: s.N, Cs: s.Cs}, res)
@@ -609,6 +643,7 @@ func (r *runner) exec(s SOp) {
 			hs[i] = e.h
 			ents[i] = e.h.entity()
 		}
+		r.kept = append(r.kept, keptSlice{fmt.Sprintf("the slice handed to Annihilates at concrete op #%d", len(r.c.Ops)), ents, append([]ecs.Entity{}, ents...)})
 		res := call(func() Res { r.w.Annihilates(ents); return Res{K: "unit"} })
 		r.emit(COp{K: "kills", Es: hs}, res)
 		for _, e := range es {
